@@ -1,6 +1,8 @@
 import MpsVerif.Core.Sys
 import MpsVerif.Core.Validate
 import MpsVerif.Drv.Fifo
+import MpsVerif.Drv.Frame
 import MpsVerif.Props.C01
 import MpsVerif.Props.C05
 import MpsVerif.Props.C08
+import MpsVerif.Props.C18
